@@ -255,10 +255,15 @@ class FermionicArray(AbelianArray):
     def _map_blocks(self, fn_block=None, fn_sector=None):
         super()._map_blocks(fn_block, fn_sector)
         if fn_sector is not None:
-            # need to update phase keys as well
-            self.modify(
-                phases={fn_sector(s): p for s, p in self._phases.items()}
-            )
+            # need to update phase keys as well, n.b. phases of sectors that
+            # are no longer stored (e.g. truncated away) are dropped, their
+            # old keys need not be valid sectors for the new indices
+            phases = {}
+            for s, p in self._phases.items():
+                new_s = fn_sector(s)
+                if new_s in self._blocks:
+                    phases[new_s] = p
+            self.modify(phases=phases)
 
     def transpose(self, axes=None, phase=True, inplace=False):
         """Transpose the fermionic array, by default accounting for the phases
